@@ -213,7 +213,13 @@ class H2Peer:
 
     def queue_upload(self, sid: int, data: bytes, end_stream: bool = True,
                      frame_sizes: Optional[List[int]] = None, pad: int = 0) -> None:
-        self.uploads[sid] = [bytearray(data), end_stream, list(frame_sizes or []), pad]
+        if sid in self.uploads:
+            entry = self.uploads[sid]
+            entry[0].extend(data)
+            entry[1] = end_stream
+            entry[2].extend(frame_sizes or [])
+        else:
+            self.uploads[sid] = [bytearray(data), end_stream, list(frame_sizes or []), pad]
         self.pump_uploads()
 
     def pump_uploads(self) -> None:
@@ -430,6 +436,44 @@ class H2Peer:
     def stream_done(self, sid: int) -> bool:
         s = self.streams.get(sid)
         return s is not None and (s.ended > 0 or s.reset is not None)
+
+
+class H2WSClient:
+    """WebSocket over HTTP/2 (RFC 8441): feeds the DATA payload of one stream to a WSParser."""
+
+    def __init__(self, peer: H2Peer, sid: int) -> None:
+        from .ws import WSParser
+
+        self.peer = peer
+        self.sid = sid
+        self.ws = None
+        self._WSParser = WSParser
+        self._fed = 0
+
+    def feed(self, data: bytes) -> None:
+        self.peer.feed(data)
+        st = self.peer.streams.get(self.sid)
+        if st is None:
+            return
+        if self.ws is None and st.status == 200:
+            ext = b",".join(v for n, v in (st.final_headers or []) if n == b"sec-websocket-extensions").lower()
+            self.ws = self._WSParser(deflate=b"permessage-deflate" in ext,
+                                     server_no_context_takeover=b"server_no_context_takeover" in ext)
+        if self.ws is not None and len(st.data) > self._fed:
+            chunk = bytes(st.data[self._fed:])
+            self._fed = len(st.data)
+            self.ws.feed(chunk)
+
+    def eof(self) -> None:
+        self.peer.eof()
+
+    def take_out(self) -> bytes:
+        return self.peer.take_out()
+
+    @property
+    def status(self):
+        st = self.peer.streams.get(self.sid)
+        return st.status if st is not None else None
 
 
 class H2cUpgradeParser:
